@@ -35,13 +35,16 @@ struct LTr<'a> {
     closure: bool,
     /// name of the `*byte` loop variable
     deref_var: Option<String>,
+    /// read-only reference variables of a loop (`*rhs`)
+    deref_ro: Vec<String>,
+    /// `mut x: &mut [u8]` parameters: a view into the caller's buffer that the body may re-slice
+    /// (`x = &mut x[n..]`); `x` holds the view, `x'` the part of the caller's buffer left behind
+    views: Vec<String>,
 }
 
 impl<'a> LTr<'a> {
-    fn translate(reg: &'a Registry, lreg: &'a LReg, failed: &'a HashSet<String>, ty: &str, m: &str, im: &ItemImpl, f: &ImplItemFn, sig: &'a LFnSig) -> R<String> {
-        let tps: Vec<String> = sig.tparams.iter().map(|x| x.0.clone()).collect();
-        let self_ty = self_lty(im, &tps);
-        let mut tr = LTr { reg, lreg, failed, sig, self_ty: self_ty.clone(), tmp: 0, lines: vec![], ind: 1, vars: HashMap::new(), state: vec![], closure: false, deref_var: None };
+    fn translate(reg: &'a Registry, lreg: &'a LReg, failed: &'a HashSet<String>, lean_name: &str, self_ty: LTy, fsig: &Signature, fblock: &Block, sig: &'a LFnSig) -> R<String> {
+        let mut tr = LTr { reg, lreg, failed, sig, self_ty: self_ty.clone(), tmp: 0, lines: vec![], ind: 1, vars: HashMap::new(), state: vec![], closure: false, deref_var: None, deref_ro: vec![], views: vec![] };
         let mut binders = String::new();
         for (p, bounds) in &sig.tparams {
             write!(binders, " {{{p} : Type}}").unwrap();
@@ -65,12 +68,15 @@ impl<'a> LTr<'a> {
                 muts.push("self".to_string());
             }
         }
-        for (a, (n, t, st)) in f.sig.inputs.iter().filter(|a| matches!(a, FnArg::Typed(_))).zip(sig.params.iter()) {
+        for (a, (n, t, st)) in fsig.inputs.iter().filter(|a| matches!(a, FnArg::Typed(_))).zip(sig.params.iter()) {
             write!(binders, " ({n} : {})", t.lean()).unwrap();
             tr.vars.insert(n.clone(), t.clone());
             let by_mut = matches!(a, FnArg::Typed(pt) if matches!(&*pt.pat, Pat::Ident(id) if id.mutability.is_some()));
             if *st {
                 tr.state.push(n.clone());
+                if by_mut {
+                    tr.views.push(n.clone());
+                }
             }
             if *st || by_mut {
                 muts.push(n.clone());
@@ -86,7 +92,10 @@ impl<'a> LTr<'a> {
         for mv in &muts {
             tr.emit(format!("let mut {mv} := {mv}"));
         }
-        let v = tr.block(&f.block, true)?;
+        for v in tr.views.clone() {
+            tr.emit(format!("let mut {v}' : Bytes := []"));
+        }
+        let v = tr.block(fblock, true)?;
         if let Some(v) = v {
             let e = tr.exit(&v);
             tr.emit(e);
@@ -95,7 +104,7 @@ impl<'a> LTr<'a> {
             tr.emit(e);
         }
         let mut s = String::new();
-        writeln!(s, "def Gen.{ty}.{m}{binders} : {rty} := Id.run do").unwrap();
+        writeln!(s, "def {lean_name}{binders} : {rty} := Id.run do").unwrap();
         for l in &tr.lines {
             writeln!(s, "{l}").unwrap();
         }
@@ -124,7 +133,9 @@ impl<'a> LTr<'a> {
         if self.state.is_empty() {
             format!("return ({res})")
         } else {
-            format!("return ({res}, {})", self.state.join(", "))
+            // a re-sliceable view: what was left behind, then the view
+            let vals: Vec<String> = self.state.iter().map(|s| if self.views.contains(s) { format!("{s}' ++ {s}") } else { s.clone() }).collect();
+            format!("return ({res}, {})", vals.join(", "))
         }
     }
     /// bind the value of a panic-monad term (`Option`): `none` is a panic exit
@@ -200,6 +211,17 @@ impl<'a> LTr<'a> {
             self.bind_opt("_", &format!("Rs.L.assert {c}"));
             return Ok(());
         }
+        if name == "assert_eq" {
+            let args: Vec<Expr> = m.parse_body_with(punctuated::Punctuated::<Expr, Token![,]>::parse_terminated).map_err(|e| e.to_string())?.into_iter().collect();
+            if args.len() < 2 {
+                return Err("assert_eq! without two operands".into());
+            }
+            let (a, at) = self.expr(&args[0])?;
+            let (b, bt) = self.expr(&args[1])?;
+            let eq = if at == LTy::Bytes || bt == LTy::Bytes { format!("(Rs.L.bytesEq {a} {b})") } else { format!("({a} == {b})") };
+            self.bind_opt("_", &format!("Rs.L.assert {eq}"));
+            return Ok(());
+        }
         Err(format!("macro {name}!"))
     }
 
@@ -219,6 +241,10 @@ impl<'a> LTr<'a> {
         let kw = if mutable { "let mut" } else { "let" };
         let tps: Vec<String> = self.sig.tparams.iter().map(|x| x.0.clone()).collect();
         let ann_ty = ann.map(|t| lty(t, &tps, Some(&self.self_ty), self.reg, self.lreg));
+        if matches!(&*init.expr, Expr::Reference(r) if r.mutability.is_some()) {
+            // the translation of a reference is the VALUE behind it: a mutable borrow cannot be a local
+            return Err("let of a mutable borrow".into());
+        }
         if let Expr::Match(m) = &*init.expr {
             let t = self.match_value(m, &format!("{kw} {name}"))?;
             self.vars.insert(name, ann_ty.unwrap_or(t));
@@ -254,10 +280,12 @@ impl<'a> LTr<'a> {
             }
             Expr::If(i) => self.if_stmt(i),
             Expr::Match(m) => self.match_stmt(m),
+            Expr::Assign(a) if path_ident(&a.left).map_or(false, |n| self.views.contains(&n)) => self.reslice(a),
             Expr::Assign(a) => {
                 let (v, _) = self.expr(&a.right)?;
                 self.assign(&a.left, v)
             }
+            Expr::While(w) => self.while_loop(w),
             Expr::Binary(b) if is_assign_op(&b.op) => {
                 let (l, lt) = self.expr(&b.left)?;
                 let (r, _) = self.expr(&b.right)?;
